@@ -27,6 +27,8 @@ fails without E1 resp. E2.  E3 is used by C12 `storage_keys_faithful`; solvency 
 structural denomination (a bank denomination or a cw20 contract), which is what the holdings are.
 Further standing assumptions of the model (IBC core delivers at most one acknowledgement / timeout per
 sent packet — `admissible`; runtime dispatch semantics) are listed in `props/C11.json`.
+`channel_ledger_all_histories`, `channel_ledger_fresh`, `nontoken_never_pays` and `conservation` do not use
+`admissible` (they are over `runU` / `run`: every op of the history is executed).
 -/
 namespace CwPlus.Props.C11
 open CwPlus CwPlus.Ics20
